@@ -124,6 +124,21 @@ Proof.
 Qed.
 Print Assumptions c08_grouping_key_compatible.
 
+(* ... AND CONVERSELY: the same Go map (distinct architectures; the two listings are
+   permutations of each other) along the same trie path has the same key - the model
+   finds an entry whenever the code does.  Together with the first conjunct above:
+   grouping_key u a = grouping_key u b  <->  same path and same Go map.  (The listing
+   by architecture name is canonical: sorted listings of one map are equal.) *)
+Theorem c08_grouping_key_same_map_same_key : forall u a b,
+  NoDup (List.map fst a) -> Permutation a b -> dq_key u a = dq_key u b ->
+  grouping_key u a = grouping_key u b.
+Proof. exact grouping_key_complete. Qed.
+Print Assumptions c08_grouping_key_same_map_same_key.
+Example c08_grouping_key_same_map_same_key_example :
+  grouping_key f2_universe [("x", [0]); ("y", [1])] = grouping_key f2_universe [("y", [1]); ("x", [0])] /\
+  grouping_key f2_universe [("b", [1]); ("a", [0]); ("c", [0; 1])] = grouping_key f2_universe [("c", [0; 1]); ("b", [1]); ("a", [0])].
+Proof. exact grouping_key_listing_order. Qed.
+
 (* HISTORY INDEPENDENCE WITHOUT PROVISO (was refuted: C08-F2).  For every universe,
    every resolver core satisfying the frame hypothesis, EVERY history and call:
    the result after the history is the result on an empty store. *)
